@@ -17,6 +17,7 @@ import (
 // EnsureDirExists creates directories if the path not exists
 func EnsureDirExists(path string) error {
 	if _, err := os.Stat(path); os.IsNotExist(err) {
+		verifPoint("cgroup.ensure.stat-mkdir")
 		return os.MkdirAll(path, dirPerm)
 	}
 	return os.ErrExist
@@ -159,6 +160,9 @@ func writeFile(p string, content []byte, perm fs.FileMode) error {
 }
 
 func nextRandom() string {
+	if s := verifRandomName(); s != "" {
+		return s
+	}
 	return strconv.Itoa(int(rand.Int32()))
 }
 
